@@ -174,6 +174,54 @@ class export_token:
         return cell_text(node, options)
 
 
+@contract(None, props=['C04', 'C05', 'C14'])
+class export_token_history:
+    """An Exporter object may serve several exports (Exporter.get_spine_types exports with its own options through the same object;
+    a caller may keep one exporter): a cell's text must not depend on what the object exported before.  Two consecutive calls on
+    one exporter for the same cell and encoding, first with the selection of Exporter.get_spine_types (headers only) or of the default
+    export (everything), then with any selection: the second result is the cell text of the second selection.  (The one-call contract starts from a freshly constructed exporter; state keyed by less than the whole
+    request shows here.  Longer and mixed histories: the bounded contract exporter_object_history_independent.)"""
+    inline = (EX + 'Exporter.export_token',)
+
+    def inputs(g):
+        # (the note, the simple token and the header: the three ways a cell text is produced; chords and compound tokens go through
+        # the same two calls of the exporter, their tokenizers are under contract in C04)
+        node, kind = node_inputs(g, ['note', 'SimpleToken', 'header'])
+        enc = g.enum('encoding', Encoding)
+        # the earlier request: what Exporter.get_spine_types asks for (headers only), or everything (the default export)
+        cats2 = [TokenCategory.HEADER] if g.choice('earlier', ['headers-only', 'everything']) == 'headers-only' else [c for c in TokenCategory]
+
+        def opts(cats):
+            # (export_token reads the encoding and the categories only: the spine selection is fixed)
+            o = g.new(ExportOptions, {'spine_types': ['**kern'], 'from_measure': None, 'to_measure': None, 'token_categories': cats, 'kern_type': enc,
+                                      'instruments': None, 'show_measure_numbers': False, 'spine_ids': None}, None)
+            if not hasattr(o, 'fields'):
+                o.spine_types, o.from_measure, o.to_measure, o.token_categories, o.kern_type = ['**kern'], None, None, cats, enc
+                o.instruments, o.show_measure_numbers, o.spine_ids = None, False, None
+            return o
+        options, earlier = opts(g.enum_set('cats', TokenCategory)), opts(cats2)
+        return {'exporter': g.new(Exporter, {}, ()), 'node': node, 'options': options, 'earlier': earlier}
+
+    def requires(node, options, earlier):
+        enc = options.kern_type.name
+        from contracts.spec_tokens import keeps_some_pd
+        return conj(disj(conj(enc != 'bEkern', enc != 'bKern'), keeps_some_pd(node.token, lambda c: c in set(options.token_categories))),
+                    disj(conj(enc != 'bEkern', enc != 'bKern'), keeps_some_pd(node.token, lambda c: c in set(earlier.token_categories))))
+
+    def post_second_export_as_fresh(exporter, node, options, earlier):
+        try:
+            exporter.export_token(node, earlier)
+        except Exception:
+            pass            # (outside C04's domain the earlier export may fail: whatever it did, the next one is as on a fresh object)
+        try:
+            second = exporter.export_token(node, options)
+        except ValueError:
+            agnostic = disj(options.kern_type.name == 'agnosticExtendedKern', options.kern_type.name == 'agnosticKern')
+            return conj(agnostic, node.last_signature_nodes.nodes.get('ClefToken') is None,
+                        needs_conversion(node.token, lambda c: c in set(options.token_categories)))
+        return second == cell_text(node, options)
+
+
 def row_prefix(g):
     # the row built so far is only appended to: one arbitrary earlier cell stands for any prefix
     return [g.str_sym('row[0]', ['.', '4c'])]
